@@ -216,9 +216,7 @@ func main() {
 	stripes := memdb.VerifStripes(srv.Mgr.DBs[0])
 	distinctOutcome := map[string]bool{}
 
-	type result struct {
-		rep impl.Reply
-	}
+	slowReplies := 0
 	run := func(argv [][]byte, bound time.Duration) (impl.Reply, bool) {
 		ch := make(chan impl.Reply, 1)
 		go func() { ch <- srv.ExecConn(argv, conn) }()
@@ -226,6 +224,13 @@ func main() {
 		case r := <-ch:
 			return r, true
 		case <-time.After(bound):
+		}
+		// a wedged command never answers; a starved process eventually does. Only the former is a verdict.
+		select {
+		case r := <-ch:
+			slowReplies++
+			return r, true
+		case <-time.After(30 * time.Second):
 			return impl.Reply{}, false
 		}
 	}
@@ -277,7 +282,7 @@ func main() {
 		executed++
 		rep, ok := run(argv, bound)
 		if !ok {
-			report("timeout", name, argv, fmt.Sprintf("no reply within %v", bound), source)
+			report("timeout", name, argv, fmt.Sprintf("no reply within %v", bound+30*time.Second), source)
 			return
 		}
 		if rep.K == "panic" {
@@ -369,7 +374,7 @@ func main() {
 	out.Flush()
 	sum := map[string]interface{}{"inputs": idx, "enum_inputs": nEnum, "mutation_inputs": idx - nEnum, "executed": executed,
 		"skipped_blocking": skippedBlocking, "anomalies": anomalies, "names": len(names), "tokens": len(tokens),
-		"valid_commands": len(valid), "distinct_outcome_classes": len(distinctOutcome), "anomaly_sites": sites}
+		"valid_commands": len(valid), "distinct_outcome_classes": len(distinctOutcome), "anomaly_sites": sites, "slow_replies_not_wedged": slowReplies}
 	b, _ := json.Marshal(sum)
 	fmt.Println("SUMMARY " + string(b))
 }
